@@ -1484,19 +1484,28 @@ func TestVerifC47PivotV2(t *testing.T) {
 				total.rejectedBy[0].Load(), total.rejectedBy[1].Load(), total.rejectedBy[2].Load(), total.tampered.Load(), cnt.balTampered.Load(),
 				total.chunked.Load(), cnt.balReqs.Load(), base.puts.Load())
 		}
-		barrier := func() {
+		// barrier reports what the write barrier has seen; cur (optional) is the state of the
+		// pivot of the cycle that just ended with the download complete: a wrong storage
+		// root written by the trie generator is explained by the flat-state difference
+		barrier := func(cur *c47State) {
 			base.mu.Lock()
 			v := append([]string{}, base.viol...)
 			base.mu.Unlock()
 			if len(v) > 0 {
-				report("data that belongs to no honest block state reached the database: %s", strings.Join(v, " | "))
+				msg := "data that belongs to no honest block state reached the database: " + strings.Join(v, " | ")
+				if cur != nil {
+					if d := c47pDiffFlat(inner, cur, changedAll); len(d) > 0 {
+						msg += "\n  the download phase is complete, but the flat state is not the pivot's state: " + strings.Join(d, "; ")
+					}
+				}
+				report("%s", msg)
 			}
 		}
 		stalled := func(where string) {
 			n := c47pStalls.Add(1)
 			c.Class("pivot/inconclusive-stall")
 			st.Note("moving-pivot stall (%s): %+v cycles: %s", where, sh, strings.Join(history, " | "))
-			barrier()
+			barrier(nil)
 			if n > 3 && n*4 > c47pCases.Load() {
 				t.Fatalf("VERIF-INCONCLUSIVE: %d of %d moving-pivot syncs stalled; wall-clock stalls are not a verdict", n, c47pCases.Load())
 			}
@@ -1546,7 +1555,10 @@ func TestVerifC47PivotV2(t *testing.T) {
 				stalled(fmt.Sprintf("cycle %d", ci))
 				return
 			}
-			barrier()
+			if sy.getPhase() >= phaseGenerate {
+				barrier(state)
+			}
+			barrier(nil)
 			if out.err == nil {
 				final = state
 				history = append(history, fmt.Sprintf("cycle %d completed", ci))
